@@ -164,6 +164,7 @@ CL_BAD = [
     b"+5", b"-0", b"-5", b"0x5", b"5,5", b"5, 5", b"5 5", b"5\t5", b"\xd9\xa5", b"\xef\xbc\x95", b"1e1", b"5.0",
     b"", b"5;", b"abc", b"5\x0b", b"\x0c5", b"99999999999999999999999999999x", b"0b101", b"5_0", b"\xc2\xb2",
 ]
+CL_BAD += [b"9" * 4301, b"1" + b"0" * 5000]  # beyond int()'s default conversion limit
 CL_OK = [b"05", b"005", b"5"]  # decimal with leading zeros is still 1*DIGIT
 TE_VARIANTS = [
     b"chunked, chunked", b"chunked , identity", b"identity", b"xchunked", b"chunkedx", b"chunked;q=1", b"chunked; q=1",
